@@ -85,6 +85,7 @@ pub fn c11() -> Simple {
             "resp-malformed",
             "resp-missing",
             "stall",
+            "decode-myc",
         ],
         gen: gen_c11,
         extra: None,
